@@ -97,6 +97,9 @@ func genValueType(t *rapid.T, depth int, allowPtr bool) *tn {
 	case k <= 5:
 		return &tn{K: "slice", Elem: genValueType(t, depth-1, true)}
 	case k == 6:
+		if rapid.IntRange(0, 7).Draw(t, "longarray") == 0 {
+			return &tn{K: "array", Len: rapid.SampledFrom([]int{10, 16, 20, 30, 40}).Draw(t, "vlonglen"), Elem: bs(rapid.SampledFrom([]string{"int", "uint8", "float64", "int16", "string"}).Draw(t, "vlongelem"))}
+		}
 		return &tn{K: "array", Len: rapid.IntRange(0, 3).Draw(t, "vlen"), Elem: genValueType(t, depth-1, true)}
 	case k <= 8:
 		return &tn{K: "map", Key: genKeyTypeForValues(t), Elem: genValueType(t, depth-1, true)}
@@ -244,6 +247,14 @@ func genValue(t *rapid.T, rt reflect.Type, depth int) *vn {
 		n := rapid.IntRange(0, 3).Draw(t, "slen")
 		if depth <= 0 {
 			n = rapid.IntRange(0, 1).Draw(t, "slen0")
+		}
+		switch rt.Elem().Kind() {
+		case reflect.Bool, reflect.String, reflect.Int, reflect.Int8, reflect.Int16, reflect.Int32, reflect.Int64, reflect.Uint, reflect.Uint8, reflect.Uint16, reflect.Uint32, reflect.Uint64,
+			reflect.Uintptr, reflect.Float32, reflect.Float64:
+			// long sequences of scalars (whatever lays them out in rows or wraps them): lengths around the round numbers
+			if rapid.IntRange(0, 5).Draw(t, "longslice") == 0 {
+				n = rapid.SampledFrom([]int{8, 9, 10, 11, 16, 19, 20, 21, 30, 32, 40, 64, 100}).Draw(t, "longlen")
+			}
 		}
 		v := &vn{Elems: []*vn{}}
 		for i := 0; i < n; i++ {
